@@ -27,8 +27,12 @@ def seeds_section():
     out.write("pristine tree, the unedited suite passes with the patch, the demo fails with the patch). `tools/seedmatrix.py` runs the\n")
     out.write("check of the seed's property (and of related properties) against a scratch copy of the sources with the patch applied\n")
     out.write("(`./seedtest.sh`; /repo is never touched). Of the %d seeds run, **%d are reported as a violation (exit 1)** by at least one\n" % (len(run), len(caught)))
-    out.write("check; the others are listed with the reason. `violation*` = reported through the baseline rule (obligation discharged on\n")
-    out.write("the unchanged tree, open on the changed function) with `no-failing-input-found`.\n\n")
+    out.write("check; the others are listed with the reason. *refuted* = the solver produced a counter-model of a named obligation\n")
+    out.write("(validated on an untainted path); *no longer discharged* = an obligation that was discharged for the baseline text of the\n")
+    out.write("function is left open by every back end for the changed text (baseline rule; no counter-model); *input replayed natively* =\n")
+    out.write("the failing input was reproduced on the real code by `engine/native` (otherwise the VIOLATION line ends in\n")
+    out.write("`no-failing-input-found`: there is a native replay generator only for the stream halves, the range set, the codecs, the\n")
+    out.write("congestion controller, the header validators and the server routing table).\n\n")
     out.write("| seed | what was changed | needs to manifest | outcome per check | first failing obligations |\n|---|---|---|---|---|\n")
     for sid, m in rows:
         fn = m.get("function") or ", ".join(m.get("files") or [])
@@ -39,11 +43,21 @@ def seeds_section():
         for p, v in ch.items():
             rc = v.get("rc")
             lab = {0: "held (missed)", 1: "violation", 2: "undecided", 3: "crash", 9: "patch does not apply"}.get(rc, "rc=%s" % rc)
-            if rc == 1 and v.get("violations") and v.get("without_replayed_input") == v.get("violations"):
-                lab = "violation*"
+            if rc == 1:
+                obs = v.get("obligations") or []
+                kinds = []
+                if any("[refuted" in o for o in obs):
+                    kinds.append("refuted")
+                if any("[no longer discharged" in o for o in obs):
+                    kinds.append("no longer discharged")
+                if v.get("violations", 0) > v.get("without_replayed_input", 0):
+                    kinds.append("input replayed natively")
+                lab = "violation (%s)" % ", ".join(kinds or ["see replay"])
             outc.append("%s: %s" % (p, lab))
-            for o in (v.get("obligations") or [])[:3]:
+            for o in [o for o in (v.get("obligations") or []) if not o.startswith("None")][:3]:
                 obl.append(o)
+            if any(o.startswith("None") for o in (v.get("obligations") or [])):
+                obl.append("bounded stand-in (failing input replayed)")
         if not ch:
             outc = ["(not run)"]
         cell = lambda t, k: str(t).replace("|", "/").replace("\n", " ")[:k]
